@@ -428,8 +428,8 @@ def pow_then_mul(tokens):
                 j += 1
             else:
                 j += 1
-                while j < n and tokens[j].startswith("'") or (j < n and tokens[j] in WELL_POOL + GROUP_POOL):
-                    j += 1
+                while j < n and (tokens[j].startswith("'") or tokens[j] in WELL_POOL + GROUP_POOL):
+                    j += 1              # selector of the variable
             if j < n and tokens[j] in ("*", "/"):
                 return True
         i += 1
